@@ -294,6 +294,10 @@ def check(ctx, form, sig, sample=False):
                 sp[shn] = (h[:at] + [None] * k + h[at:], [r_[:at] + [None] * k + r_[at:] for r_ in rows_])
         ctx.ctr(f"spacer_columns:{fmt}")
         o = drive.convert_sheets(sp, fmt=fmt, args=form.args)
+    elif form.meta.get("multiline"):
+        # choice labels, extra columns and external_choices cells of two lines, through a container that can carry them (a quoted CSV field, a spreadsheet cell)
+        ctx.ctr(f"multiline_choice_cells:{form.meta['multiline']}")
+        o = drive.convert_sheets(sheets, fmt=form.meta["multiline"], args=form.args)
     else:
         o = drive.convert_sheets(sheets, args=form.args)
     wit = lambda **kw: common.witness(form, sheets_md=common.sheets_to_md(sheets)[:3000], **kw)  # noqa: E731
@@ -662,6 +666,13 @@ def run_shard(ctx):
         form = make_form(rng, i)
         if i % 6 == 2 and not form.meta.get("dict_key_order"):
             form.meta["spacer"] = (rng.choice(["xlsx", "xls"]), i)
+        elif i % 6 == 4 and not form.meta.get("dict_key_order"):
+            form.meta["multiline"] = rng.choice(["csv", "csv", "xlsx", "xls"])
+            for rows_ in list(form.choices.values()) + [form.external_choices or []]:
+                for c_ in rows_:
+                    for k_ in list(c_):
+                        if (k_.startswith("label") or k_ in EXTRA) and isinstance(c_[k_], str) and c_[k_] and "${" not in c_[k_] and rng.random() < 0.6:
+                            c_[k_] = c_[k_] + "\n" + "line two " + k_  # (a CR LF would come back from any XML parser as LF: not pyxform's doing)
         check(ctx, form, common.feature_sig(form, extra=(form.meta.get("interleave"),)), sample=(i < 2))
 
 
